@@ -16,9 +16,9 @@ TECHNIQUE = "explicit exploration of all event histories (gradient masks, lr/wd/
 RULE = (
     "(a) pipeline product {weight decay mode} x {beta1/beta3} x {bias correction} x {momentum/nesterov/dampening} x {grafting} x beta2 on layout "
     "[(3,2),(3,2),(5,)] max_dim 3 (two equal-shaped blocks + one 2-block parameter), all mask histories to depth D; (b) all <=2 deviations "
-    "from baselines over shape/max_dim/merge/(freq,start)/dtype pair/inv_root_override/exponent multiplier/ignored dims/beta2, histories over "
+    "from baselines over shape/max_dim/merge/(freq,start)/dtype pair/inv_root_override/exponent multiplier/ignored dims/beta2/root solver, histories over "
     "{all,none,first-only}; (c) two-group optimizers vs independent optimizers (bitwise); (d) one lr/wd/momentum edit at every position; "
-    "(e) long horizon: every periodic mask pattern (period <= 2 over 3 masks, 10 steps quick; period <= 3 over 4 masks, 13 steps thorough) x (frequency, start) in {(3,3),(2,5),(4,4),(1,1),(5,5)}. "
+    "(f) step(closure) vs step() after the same gradients (bitwise; closure evaluated once with gradients enabled, value returned); (e) long horizon: every periodic mask pattern (period <= 2 over 3 masks, 10 steps quick; period <= 3 over 4 masks, 13 steps thorough) x (frequency, start) in {(3,3),(2,5),(4,4),(1,1),(5,5)}. "
     "state = digest of (parameters, optimizer.state, param_groups) after each step; non-trivial = history with a mask change or an edit"
 )
 ASSUMPTIONS = [
@@ -63,12 +63,15 @@ AXES = {
     "beta2": [1.0, 0.5],
     "graft": [None, ["adam", 0.5, 1e-1]],
     "gscale": [1.0, 2.0 ** -17],  # tiny gradients with epsilon scaled accordingly (1e-1 * gscale^2 ~ 5.8e-12)
-    "grad_kind": ["table", "rank1_first", "onehot_first", "zero_second"],  # onehot: diagonal factors first, dense later (sticky diagonal flag)
+    # onehot: diagonal factors first, dense later (sticky diagonal flag); twohot: sparse but non-diagonal factors
+    "grad_kind": ["table", "rank1_first", "onehot_first", "zero_second", "twohot"],
+    # amortized-computation config of the inverse roots (all compute the same mathematical root)
+    "solver": ["eigen", "newton", "higher", "eigen_stab"],
 }
 BASELINES = [
-    {"shapes": [[2, 3]], "max_dim": 3, "merge": True, "fs": (1, 1), "dt": ("f32", "f32"), "inv_root_override": 0, "exp_mult": 1.0, "ignored": [], "beta2": 1.0, "graft": None, "gscale": 1.0, "grad_kind": "table"},
-    {"shapes": [[2, 2, 3]], "max_dim": 2, "merge": False, "fs": (2, 2), "dt": ("f64", "f64"), "inv_root_override": 0, "exp_mult": 1.0, "ignored": [], "beta2": 0.5, "graft": ["adam", 0.5, 1e-1], "gscale": 1.0, "grad_kind": "table"},
-    {"shapes": [[3, 2], [4]], "max_dim": 1024, "merge": True, "fs": (2, 3), "dt": ("f32", "f32"), "inv_root_override": 0, "exp_mult": 1.0, "ignored": [], "beta2": 0.5, "graft": None, "gscale": 1.0, "grad_kind": "rank1_first"},
+    {"shapes": [[2, 3]], "max_dim": 3, "merge": True, "fs": (1, 1), "dt": ("f32", "f32"), "inv_root_override": 0, "exp_mult": 1.0, "ignored": [], "beta2": 1.0, "graft": None, "gscale": 1.0, "grad_kind": "table", "solver": "eigen"},
+    {"shapes": [[2, 2, 3]], "max_dim": 2, "merge": False, "fs": (2, 2), "dt": ("f64", "f64"), "inv_root_override": 0, "exp_mult": 1.0, "ignored": [], "beta2": 0.5, "graft": ["adam", 0.5, 1e-1], "gscale": 1.0, "grad_kind": "table", "solver": "eigen"},
+    {"shapes": [[3, 2], [4]], "max_dim": 1024, "merge": True, "fs": (2, 3), "dt": ("f32", "f32"), "inv_root_override": 0, "exp_mult": 1.0, "ignored": [], "beta2": 0.5, "graft": None, "gscale": 1.0, "grad_kind": "rank1_first", "solver": "eigen"},
 ]
 
 
@@ -76,6 +79,12 @@ def dev_cfg(d, seed, soap=False):
     if d["ignored"] and d["inv_root_override"] != 0:
         return None
     pc = ["shampoo", {"exp_mult": d["exp_mult"], "ignored": d["ignored"]}]
+    if d["solver"] == "eigen_stab":
+        pc[1]["enhance"] = True
+    elif d["solver"] != "eigen":
+        if d["exp_mult"] != 1.0:
+            return None  # the coupled iterations need an integer root
+        pc[1]["solver"] = d["solver"]
     return seq.cfg_with(
         shapes=d["shapes"], max_dim=d["max_dim"], merge=d["merge"], freq=d["fs"][0], start=d["fs"][1], pdtype=d["dt"][0], prec_dtype=d["dt"][1],
         inv_root_override=d["inv_root_override"], precond=pc, betas=[0.5, d["beta2"]], momentum=0.5, wd=0.5, decoupled=True, graft=d["graft"], seed=seed,
@@ -107,6 +116,7 @@ def group_cfgs(seed):
     out = []
     overs = [
         {"lr": 0.125},
+        {"eps": 1e-2},
         {"betas": [0.0, 0.5]},
         {"momentum": 0.0, "wd": 0.0},
         {"freq": 2, "start": 2},
@@ -154,6 +164,8 @@ def _work(tier, seed):
             units.append({"part": "d", "cfgs": ch, "depth": 3})
         for ch in common.chunks(long_cfgs(tier, seed), 2):
             units.append({"part": "e", "cfgs": ch, "depth": 10, "nmask": 3})
+        for ch in common.chunks(cfgs[(seed + 11) % 60 :: 60], 2):
+            units.append({"part": "f", "cfgs": ch, "depth": 2})
     else:
         cfgs = pipeline_cfgs([0.5, 1.0], seed)
         for ch in common.chunks(cfgs, 2):
@@ -166,6 +178,8 @@ def _work(tier, seed):
             units.append({"part": "d", "cfgs": ch, "depth": 3})
         for ch in common.chunks(long_cfgs(tier, seed), 1):
             units.append({"part": "e", "cfgs": ch, "depth": 13, "nmask": 4})
+        for ch in common.chunks(cfgs[(seed + 11) % 30 :: 30], 2):
+            units.append({"part": "f", "cfgs": ch, "depth": 3})
     return units
 
 
@@ -173,7 +187,7 @@ def _work(tier, seed):
 
 
 def hist_list(part, depth, nparams, nmask=3):
-    if part in ("a", "c"):
+    if part in ("a", "c", "f"):
         masks = seq.all_masks(nparams)
         return [[["step", m] for m in h] for h in itertools.product(masks, repeat=depth)], ["step", masks[0]]
     if part == "b":
@@ -227,10 +241,63 @@ def check_one(cfg, hist, part, default_ev):
         return None, None  # 0 -> non-zero momentum edit excluded (buffer not allocated)
     if part == "c":
         return check_groups(cfg, hist)
+    if part == "f":
+        return check_closure(cfg, hist)
     cf = seq.first_compare_index(hist, default_ev) if default_ev is not None else 0
     resync = cfg["pdtype"] == "bf16"
-    r = seq.run_history_checked(cfg, hist, compare_from=cf, resync=resync, extra=held_fixed_oracle())
+    r = seq.run_history_checked(cfg, hist, compare_from=cf, resync=resync, tolscale=solver_tolscale(cfg), extra=held_fixed_oracle())
     return r["msgs"], r
+
+
+def check_closure(cfg, hist):
+    """step(closure): the closure is evaluated exactly once with gradients enabled, its value is returned, and the update is
+    the one of a plain step() taken after the same gradients were set (bitwise)."""
+    import torch
+
+    params, opt = seq.build(cfg)
+    tparams = [torch.nn.Parameter(p.detach().clone()) for p in params]
+    _, twin = seq.build(cfg, params=tparams)
+    msgs, digests = [], []
+    for t, ev in enumerate(hist):
+        mask = ev[1]
+        calls = []
+
+        def closure():
+            calls.append(torch.is_grad_enabled())
+            seq.set_grads(params, cfg, t, mask)  # what loss.backward() inside a closure does
+            return 1.5 + t
+
+        try:
+            with torch.no_grad():
+                ret = opt.step(closure)
+            seq.set_grads(tparams, cfg, t, mask)
+            ret2 = twin.step()
+        except Exception as e:
+            return [f"event {t}: raised {type(e).__name__}: {str(e)[:150]}"], None
+        if calls != [True]:
+            msgs.append(f"step {t}: closure was evaluated {len(calls)} times / with gradients enabled = {calls} (expected exactly once, enabled)")
+        if ret != 1.5 + t:
+            msgs.append(f"step {t}: step(closure) returned {ret!r}, the closure returned {1.5 + t}")
+        if ret2 is not None:
+            msgs.append(f"step {t}: step() without closure returned {ret2!r}")
+        for i, (a, b) in enumerate(zip(params, tparams)):
+            if not torch.equal(a.detach(), b.detach()) or common.digest_obj(opt.state[a]) != common.digest_obj(twin.state[b]):
+                msgs.append(f"step {t} mask {mask}: parameter {i} / its state after step(closure) differs from step() after the same gradients")
+                break
+        digests.append(seq.visible_digest(opt, params))
+        if msgs:
+            break
+    return msgs[:3], {"worst": 0.0, "digests": digests, "nsteps": len(digests), "refreshes": 0}
+
+
+def solver_tolscale(cfg):
+    """the coupled iterations stop at |M - I|_max <= 1e-10 (seq.make_precond): in float64 that, not the round-off, limits
+    the accuracy of the roots (largest deviation seen on the unchanged tree: 1e-8, higher-order solver) -> reference
+    tolerance 1e-6 instead of 256 u."""
+    pc = cfg["precond"][1] if cfg.get("precond") else {}
+    if pc.get("solver") in ("newton", "higher") and common.coarsest(cfg["pdtype"], cfg["prec_dtype"]) == "f64":
+        return 1e-6 / (common.K_REF["f64"] * common.UNIT["f64"])
+    return 1.0
 
 
 def held_fixed_oracle():
@@ -361,5 +428,7 @@ def replay(case):
     if part == "c":
         msgs, _ = check_groups(case["cfg"], case["hist"])
         return msgs
-    r = seq.run_history_checked(case["cfg"], case["hist"], compare_from=0, resync=case["cfg"]["pdtype"] == "bf16", extra=held_fixed_oracle())
+    if part == "f":
+        return check_closure(case["cfg"], case["hist"])[0]
+    r = seq.run_history_checked(case["cfg"], case["hist"], compare_from=0, resync=case["cfg"]["pdtype"] == "bf16", tolscale=solver_tolscale(case["cfg"]), extra=held_fixed_oracle())
     return r["msgs"]
